@@ -141,6 +141,9 @@ func (c *ctx) entryDoc(name string, p int, k AbsKind) any {
 			m["apiVersion"] = "v2"
 		}
 		m["description"] = "entry " + fmt.Sprint(p)
+		if k.Dep {
+			m["deprecated"] = true
+		}
 	}
 	return m
 }
